@@ -198,6 +198,28 @@ func evaluate[C any](s *Sub, c C, check func(C, *Rec) error) (err error) {
 	if merr != nil {
 		return fmt.Errorf("harness: cannot marshal case: %v", merr)
 	}
+	// diagnostics only (never part of a verdict): a case that is still running after a minute is written next to the
+	// stats file, so that a run that ends at its deadline (INCONCLUSIVE) names the input that consumed the time
+	slow := time.AfterFunc(60*time.Second, func() {
+		if f := os.Getenv("VERIF_STATS_FILE"); f != "" {
+			os.WriteFile(f+".slow.json", []byte(fmt.Sprintf(`{"sub":%q,"case":%s}`+"\n", s.Name, raw)), 0o644)
+		}
+		fmt.Printf("SLOW-CASE %s: still running after 60s: %s\n", s.Name, clipRaw(raw, 600))
+	})
+	// canonical labelling has no polynomial bound: a C01/C02 case that runs for ten minutes ends the process with the
+	// case saved (the driver reports INCONCLUSIVE and the input), instead of occupying a core for hours
+	var giveUp *time.Timer
+	if strings.HasPrefix(s.Name, "C01_") || strings.HasPrefix(s.Name, "C02_") {
+		giveUp = time.AfterFunc(10*time.Minute, func() {
+			// not a verdict: no failure is recorded; exit code 4 = "gave up on a slow case" (INCONCLUSIVE for the driver)
+			if f := os.Getenv("VERIF_STATS_FILE"); f != "" {
+				os.WriteFile(f+".slow.json", []byte(fmt.Sprintf(`{"sub":%q,"case":%s}`+"\n", s.Name, raw)), 0o644)
+			}
+			stats.flush()
+			fmt.Printf("SLOW-ABORT %s: one case has been running for 10 minutes: %s\n", s.Name, clipRaw(raw, 600))
+			os.Exit(4)
+		})
+	}
 	func() {
 		defer func() {
 			if r := recover(); r != nil {
@@ -206,6 +228,10 @@ func evaluate[C any](s *Sub, c C, check func(C, *Rec) error) (err error) {
 		}()
 		err = check(c, rec)
 	}()
+	slow.Stop()
+	if giveUp != nil {
+		giveUp.Stop()
+	}
 	stats.record(s, raw, rec)
 	if err != nil {
 		stats.mu.Lock()
@@ -213,6 +239,13 @@ func evaluate[C any](s *Sub, c C, check func(C, *Rec) error) (err error) {
 		stats.mu.Unlock()
 	}
 	return err
+}
+
+func clipRaw(b []byte, n int) string {
+	if len(b) > n {
+		return string(b[:n]) + "..."
+	}
+	return string(b)
 }
 
 func trimStack(b []byte) string {
